@@ -59,3 +59,55 @@ Definition arith_mem_imm (checked : bool) (op mem_size : Z) (longform : bool) (i
 (* what the CPU uses as second operand (Intel SDM vol. 2, ADD..CMP: imm8 sign-extended to the operand size; imm32
    sign-extended to 64 bits for a 64-bit operand), as an unsigned operand-size value *)
 Definition effective_imm (e : arith_enc) : Z := (sx (8 * ae_immsize e) (ae_field e)) mod 2 ^ (8 * ae_opsize e).
+
+(* ---- TEST r/m, imm (case kEncodingX86Test) and MOV r/m, imm (case kEncodingX86Mov) ----
+   `checked` = the tree refuses a 64-bit operand whose immediate is not an int32 where only a sign-extended imm32 exists
+   (TEST r/m64, MOV m64: fixes/C17-x86-test-mov-imm64.patch); the pinned code truncates.  acc: the register is rAX (id 0),
+   otherwise the harness uses rCX (id 1). *)
+Definition test_reg_imm (checked : bool) (size : Z) (acc longform : bool) (imm : Z) : option arith_enc :=
+  if checked && (size =? 8) && negb (is_int32 imm) then None else
+  let imm_size := if size =? 1 then 1 else Z.min size 4 in
+  if acc && negb longform
+  then Some {| ae_opsize := size; ae_short := true; ae_opc := if size =? 1 then 168 else 169; ae_immsize := imm_size;
+               ae_field := imm_field imm imm_size |}
+  else Some {| ae_opsize := size; ae_short := false; ae_opc := if size =? 1 then 246 else 247; ae_immsize := imm_size;
+               ae_field := imm_field imm imm_size |}.
+
+Definition test_mem_imm (checked : bool) (mem_size : Z) (imm : Z) : option arith_enc :=
+  if checked && (mem_size =? 8) && negb (is_int32 imm) then None else
+  Some {| ae_opsize := mem_size; ae_short := false; ae_opc := if mem_size =? 1 then 246 else 247;
+          ae_immsize := Z.min mem_size 4; ae_field := imm_field imm (Z.min mem_size 4) |}.
+
+(* MOV reg, imm: B0+r ib / B8+r iw,id / REX.W C7 /0 id (sign-extended) / REX.W B8+r io (movabs) / B8+r id for a uint32 when
+   optimising for size (32-bit destination, zero-extended by the CPU).  ae_short = no ModRM byte. *)
+Definition mov_reg_imm (size : Z) (acc optsize longform : bool) (imm : Z) : arith_enc :=
+  let id := if acc then 0 else 1 in
+  if size =? 1 then {| ae_opsize := 1; ae_short := true; ae_opc := 176 + id; ae_immsize := 1; ae_field := imm_field imm 1 |}
+  else if (size =? 8) && negb longform && is_uint32 imm && optsize
+  then {| ae_opsize := 4; ae_short := true; ae_opc := 184 + id; ae_immsize := 4; ae_field := imm_field imm 4 |}
+  else if (size =? 8) && negb longform && is_int32 imm
+  then {| ae_opsize := 8; ae_short := false; ae_opc := 199; ae_immsize := 4; ae_field := imm_field imm 4 |}
+  else {| ae_opsize := size; ae_short := true; ae_opc := 184 + id; ae_immsize := size; ae_field := imm_field imm size |}.
+
+Definition mov_mem_imm (checked : bool) (mem_size : Z) (imm : Z) : option arith_enc :=
+  if checked && (mem_size =? 8) && negb (is_int32 imm) then None else
+  Some {| ae_opsize := mem_size; ae_short := false; ae_opc := if mem_size =? 1 then 198 else 199;
+          ae_immsize := Z.min mem_size 4; ae_field := imm_field imm (Z.min mem_size 4) |}.
+
+(* ---- IMUL r, r/m, imm (case kEncodingX86Imul, (Reg, Reg, Imm) and (Reg, Mem, Imm)) and PUSH imm in 64-bit mode
+   (case kEncodingX86Push): 6B /r ib | 69 /r iw,id  and  6A ib | 68 id; `checked` as above (same patch). The memory form
+   of IMUL sign-extends a 32-bit immediate before the imm8 test, the register form does not. *)
+Definition imul_imm (checked mem : bool) (size : Z) (longform : bool) (imm : Z) : option arith_enc :=
+  if checked && (size =? 8) && negb (is_int32 imm) then None else
+  let imm_value := if mem && (size =? 4) then sign_extend_int32 imm else imm in
+  let i8 := is_int8 imm_value && negb longform in
+  let imm_size := if i8 then 1 else if size =? 2 then 2 else 4 in
+  Some {| ae_opsize := size; ae_short := false; ae_opc := if i8 then 107 else 105; ae_immsize := imm_size;
+          ae_field := imm_field imm_value imm_size |}.
+
+Definition push_imm (checked longform : bool) (imm : Z) : option arith_enc :=
+  if checked && negb (is_int32 imm) then None else
+  let i8 := is_int8 imm && negb longform in
+  let imm_size := if i8 then 1 else 4 in
+  Some {| ae_opsize := 8; ae_short := true; ae_opc := if i8 then 106 else 104; ae_immsize := imm_size;
+          ae_field := imm_field imm imm_size |}.
